@@ -4,7 +4,7 @@ CONSTANTS
   MaxNeg = 0
   MaxPos = 0
   NCols = 6
-  Datasets = {"all", "wrap", "neg", "pos", "nonneg", "single", "empty", "ties", "ties0"}
+  Datasets = {"all", "wrap", "neg", "pos", "nonneg", "low", "low1", "single", "empty", "ties", "ties0"}
   Vias = {"set", "setd", "imp", "imp1d"}
   Classes = {"W", "Q"}
   Depth = 8
